@@ -62,7 +62,7 @@ PARAMS = [
 BAD = [("xa", "i", "0", "-", "-"), ("xb", "f", "-", "-", "-"), ("xc", "i", "0", "10", "x"), ("xd", "f", "0", "1", "n")]
 VALS = [0.0, 1.0, 0.5, 0.25, 0.75, 1 / 127.0, 64 / 127.0, 126 / 127.0, 0.1, 0.9, 0.499, 0.501, -0.5, 1.5, 2.0, -1.0,
         100.0, -100.0, 1e-6, 0.333333, 0.666667]
-GAINS = [100.0, 100.0, 50.0, 200.0, 0.0, -100.0, 1.0, 33.3, 150.0, -50.0, 1000.0, 3e38, -3e38, 1e30]
+GAINS = [100.0, 100.0, 50.0, 200.0, 0.0, -100.0, 1.0, 33.3, 150.0, -50.0, 1000.0, 3e38, -3e38, 1e30, float("inf"), 1e36]
 OFFS = [0.0, 0.0, 10.0, -10.0, 50.0, -50.0, 100.0, 25.5, -100.0, 3e38, -1e36]
 WILD = [float("inf"), float("-inf"), float("nan"), 1e38, -1e38, 3e38]
 CCS = [1, 7, 10, 74]
